@@ -40,6 +40,8 @@ class _State:
     calc_tap = None  # when a list: receives (args, kwargs) of every outermost calculate_partial_fluxes call
     tap = None  # when a list: receives (permeate composition argument, result) of driving-force evaluations
     hist = None
+    call_limit = None  # when a number: bound on the driving-force evaluations of one public call (several flux calculations)
+    call_evals = 0
 
 
 S = _State()
@@ -63,6 +65,11 @@ def install_budget():
         if S.evals > S.eval_limit:
             S.exceeded += 1
             raise BudgetExceeded("evaluation", S.evals, S.eval_limit)
+        if S.call_limit is not None:
+            S.call_evals += 1
+            if S.call_evals > S.call_limit:
+                S.exceeded += 1
+                raise BudgetExceeded("public call", S.call_evals, S.call_limit)
         r = orig_helper(self, *a, **k)
         if S.tap is not None:
             y = k.get("permeate_composition", a[2] if len(a) > 2 else None)
@@ -158,6 +165,19 @@ def budget(evals):
 
 
 @contextlib.contextmanager
+def call_budget(flux_calculations):
+    """bound one public call that is entitled to `flux_calculations` flux calculations: a helper or model that keeps
+    re-running the flux calculation (each run within its own budget) is stopped as well"""
+    old = (S.call_limit, S.call_evals)
+    S.call_limit = flux_calculations * HARD_EVALS
+    S.call_evals = 0
+    try:
+        yield
+    finally:
+        S.call_limit, S.call_evals = old
+
+
+@contextlib.contextmanager
 def tap():
     """record the driving-force evaluations made inside the block (first two and last two)"""
     S.tap = []
@@ -188,6 +208,55 @@ def bind_calc_args(a, k):
     out = dict(zip(params, a))
     out.update(k)
     return out
+
+
+def thread_burst(jobs, threads=4, rounds=30, seconds=1.5):
+    """The same pure calls issued by several threads at once (a parameter sweep on a thread pool) must give what they give
+    one after the other.  `jobs`: zero-argument callables returning a comparable value.  -> (mismatches, calls made):
+    mismatches is a list of (job index, serial value, threaded value)."""
+    import threading
+    import time
+
+    serial = [j() for j in jobs]
+    bad, made = [], [0]
+    lock = threading.Lock()
+    old = sys.getswitchinterval()
+    sys.setswitchinterval(1e-6)
+    deadline = time.monotonic() + seconds
+    start = threading.Barrier(threads)
+
+    def work(tid):
+        order = list(range(len(jobs)))
+        order = order[tid % max(1, len(order)):] + order[: tid % max(1, len(order))]
+        if tid % 2:
+            order.reverse()
+        start.wait()
+        n = 0
+        for _ in range(rounds):
+            for i in order:
+                try:
+                    v = jobs[i]()
+                except Exception as e:  # a job that succeeded serially must not fail in a thread
+                    v = repr(e)
+                n += 1
+                if v != serial[i]:
+                    with lock:
+                        if len(bad) < 5:
+                            bad.append((i, serial[i], v))
+            if time.monotonic() > deadline:
+                break
+        with lock:
+            made[0] += n
+
+    try:
+        ts = [threading.Thread(target=work, args=(t,)) for t in range(threads)]
+        for t in ts:
+            t.start()
+        for t in ts:
+            t.join()
+    finally:
+        sys.setswitchinterval(old)
+    return bad, made[0]
 
 
 def budget_stats():
